@@ -557,8 +557,11 @@ class OptionsParser:
         if option.startswith('='):
             raise ValueError('Missing option name in options')
 
+        # Option names are case-insensitive, so store them in lower case
+
         if '=' in option:
             option, value = option.split('=', 1)
+            option = option.lower()
 
             handler = self._handlers.get(option)
             if handler:
@@ -567,7 +570,7 @@ class OptionsParser:
                 values = cast(List[str], self.options.setdefault(option, []))
                 values.append(value)
         else:
-            self.options[option] = True
+            self.options[option.lower()] = True
 
     def _parse_options(self, line: str) -> str:
         """Parse options in this entry"""
